@@ -27,13 +27,18 @@ def parseNamePort (tok : String) : List (String × Nat) :=
     | n :: _ => (n, 0)
     | [] => ("", 0)
 
+/-- slice ports: the name `nil` is a nil pointer (empty name), port 0 a nil port -/
+def parseSlicePorts (tok : String) : List (String × Nat) :=
+  (parseNamePort tok).map fun p => (if p.1 == "nil" then "" else p.1, p.2)
+
 def parseCond (t : String) : Option Bool :=
   if t.startsWith "t" then some true else if t.startsWith "f" then some false else none
 
 def parseEp (e : String) : Option Ep :=
   match e.splitOn "/" with
   | [a, r, s, t, tg] =>
-    let target := if tg = "-" then none else
+    -- "!ns:name" is a targetRef whose Kind is not Pod: handled like no targetRef
+    let target := if tg = "-" || tg.startsWith "!" then none else
       match tg.splitOn ":" with
       | tns :: rest => some (tns, ":".intercalate rest)
       | [] => none
@@ -45,17 +50,25 @@ def parseOp (toks : List String) : Option Op :=
   | ["svc", ns, name, kind, ports, sel, flags] =>
     let fl := decList flags
     some (.svc { ns := dec ns, name := dec name, kind := kind, ports := parseNamePort ports, sel := parseKV sel,
-                 drain := fl.contains "drain", td := fl.contains "td" })
+                 drain := fl.contains "drain", td := fl.contains "td", x := fl.contains "x",
+                 sas := fl.contains "sa" })
   | ["delsvc", ns, name] => some (.delSvc (dec ns) (dec name))
   | ["slice", ns, name, svc, atype, ports, eps] =>
-    some (.slice { ns := dec ns, name := dec name, svc := dec svc, fqdn := atype == "fqdn", ports := parseNamePort ports,
+    -- a slice with the MCS service-name label ("M:<svc>") is invisible to the controller (endpointSliceSelector): no op
+    if (dec svc).startsWith "M:" then none else
+    some (.slice { ns := dec ns, name := dec name, svc := dec svc, fqdn := atype == "fqdn", ports := parseSlicePorts ports,
                    eps := (decList eps).filterMap parseEp })
   | ["delslice", ns, name] => some (.delSlice (dec ns) (dec name))
   | ["pod", ns, name, ip, phase, ready, deleting, labels, sa, node] =>
     some (.pod { ns := dec ns, name := dec name, ip := dec ip, phase := phase, ready := ready == "1", deleting := deleting == "1",
                  labels := parseKV labels, sa := dec sa, node := dec node })
   | ["delpod", ns, name] => some (.delPod (dec ns) (dec name))
-  | ["node", name, region, zone] => some (.node { name := dec name, region := dec region, zone := dec zone })
+  | ["node", name, region, zone] =>
+    -- "L:<v>" = the legacy failure-domain label (same value), zone "<z>/<subzone>"
+    let strip := fun (v : String) => if v.startsWith "L:" then (v.drop 2).toString else v
+    let zs := (dec zone).splitOn "/"
+    some (.node { name := dec name, region := strip (dec region), zone := strip (zs.headD ""),
+                  sub := "/".intercalate (zs.drop 1) })
   | ["delnode", name] => some (.delNode (dec name))
   | ["ns", name, td] => some (.ns { name := dec name, td := td == "close" })
   | ["delns", name] => some (.delNs (dec name))
@@ -71,7 +84,8 @@ def Health.tok : Health → String
 
 def showIEp (e : IEp) : String :=
   e.addr ++ ":" ++ toString e.port ++ "|" ++ e.portName ++ "|" ++ e.health.tok ++ "|1|" ++ e.sa ++ "|" ++ e.ns ++ "|" ++
-    e.node ++ "|" ++ e.tls ++ "|" ++ e.locality ++ "|" ++ e.workload ++ "|" ++ showMap e.labels
+    e.node ++ "|" ++ e.tls ++ "|" ++ e.locality ++ "|" ++ e.workload ++ "|" ++ e.network ++ "|" ++ e.hostname ++ "|" ++
+    e.subdomain ++ "|" ++ showMap e.labels
 
 def showIEps (l : List IEp) : String := "[" ++ ",".intercalate (sortStrings (l.map showIEp)) ++ "]"
 
@@ -91,7 +105,8 @@ def showSvc (s : Svc) : String :=
   let lbl := if s.drain then "istio.io/persistent-session=c" else ""
   let td := if s.td then "close" else "any"
   s.host ++ "{" ++ res ++ ";" ++ addr ++ ";" ++ ports ++ ";" ++ showMap s.sel ++ ";" ++ ext ++ ";" ++ ty ++ ";" ++ me ++ ";" ++
-    lbl ++ ";" ++ td ++ "}"
+    lbl ++ ";" ++ td ++ ";" ++ (if s.x then "~" else "") ++ ";" ++
+    (if s.sas then "spiffe://cluster.local/ns/" ++ s.ns ++ "/sa/acct1+spiffe://cluster.local/ns/" ++ s.ns ++ "/sa/acct2" else "") ++ "}"
 
 def showSas (l : List String) : String := "{" ++ ",".intercalate (sortStrings l.eraseDups) ++ "}"
 
@@ -128,7 +143,19 @@ def sortedFinal (s : Ctl) : Ctl :=
   { s with nodes := sortByKey (·.name) s.nodes, nss := sortByKey (·.name) s.nss, svcs := sortByKey Svc.key s.svcs,
            pods := sortByKey Pod.key s.pods, slices := sortByKey Slice.key s.slices }
 
-def stepD (s : State) (toks : List String) : State × String :=
+/-- is the op a write / delete of a slice with the MCS service-name label?  Such slices exist at the API
+    server but are invisible to the controller (`endpointSliceSelector`): the model has no object for them,
+    the driver only remembers their keys so that their deletion is an applicable (no-effect) op. -/
+def mcsKey (toks : List String) : Option String :=
+  match toks with
+  | ["slice", ns, name, svc, _, _, _] => if (dec svc).startsWith "M:" then some (dec ns ++ "/" ++ dec name) else none
+  | _ => none
+
+structure DState where
+  s : State := {}
+  mcs : List String := []
+
+def stepD0 (s : State) (toks : List String) : State × String :=
   match toks with
   | "case" :: _ => ({}, "ok")
   | ["hold"] => (hold s, "ok")
@@ -145,6 +172,19 @@ def stepD (s : State) (toks : List String) : State × String :=
       | none => (s, "bad-op")
       | some s' => (s', if s'.held then "queued" else showState s'.c)
 
+def stepD (d : DState) (toks : List String) : DState × String :=
+  let same := if d.s.held then "queued" else showState d.s.c
+  match toks with
+  | "case" :: _ => ({}, "ok")
+  | ["delslice", ns, name] =>
+    let k := dec ns ++ "/" ++ dec name
+    if d.mcs.contains k then ({ d with mcs := d.mcs.filter (· ≠ k) }, same)
+    else let r := stepD0 d.s toks; ({ d with s := r.1 }, r.2)
+  | _ =>
+    match mcsKey toks with
+    | some k => ({ d with mcs := if d.mcs.contains k then d.mcs else d.mcs ++ [k] }, same)
+    | none => let r := stepD0 d.s toks; ({ d with s := r.1 }, r.2)
+
 end IstioModel.C15
 
 /-! ### explanation of a divergence between an ordered run and a cold start (stream `classify`)
@@ -157,7 +197,8 @@ open IstioModel.Wire
 
 
 def dropTopo (l : Labels) : Labels :=
-  (normLabels l).filter fun kv => !(kv.1 == "topology.kubernetes.io/region" || kv.1 == "topology.kubernetes.io/zone")
+  (normLabels l).filter fun kv => !(kv.1 == "topology.kubernetes.io/region" || kv.1 == "topology.kubernetes.io/zone" ||
+    kv.1 == "topology.istio.io/subzone")
 
 /-- a symptom: what differs between the ordered run and the cold start, on which hostname, and the
     object the differing endpoint was built from (pod key, node name, address ...) -/
@@ -169,10 +210,11 @@ structure Symptom where
   pod2 : String := ""     -- the pod of the same endpoint on the other side (conflicting duplicates across slices)
   addr : String := ""
   node : String := ""
+  epAddr : String := ""   -- the address of the endpoint the symptom is about (to find the slice that holds it)
   deriving Repr
 
 def mkSy (cls host obj : String) (pod : String := "") (pod2 : String := "") (addr : String := "") (node : String := "") : Symptom :=
-  { cls := cls, host := host, obj := obj, pod := pod, pod2 := pod2, addr := addr, node := node }
+  { cls := cls, host := host, obj := obj, pod := pod, pod2 := pod2, addr := addr, node := node, epAddr := addr }
 
 def podKeyOf (e : IEp) : String := e.ns ++ "/" ++ e.workload
 
@@ -198,7 +240,8 @@ def diffSymptoms (host : String) (o c : IEp) : List Symptom :=
   let pk2 := podKeyOf c
   (if o.health ≠ c.health then [mkSy "health" host host pk pk2 o.addr] else []) ++
   (if o.locality ≠ c.locality then [mkSy "locality" host (if o.node ≠ "" then o.node else c.node) pk pk2 o.addr] else []) ++
-  (if o.sa ≠ c.sa ∨ o.ns ≠ c.ns ∨ o.node ≠ c.node ∨ o.workload ≠ c.workload then [mkSy "identity" host pk pk pk2 o.addr] else []) ++
+  (if o.sa ≠ c.sa ∨ o.ns ≠ c.ns ∨ o.node ≠ c.node ∨ o.workload ≠ c.workload ∨ o.network ≠ c.network ∨ o.hostname ≠ c.hostname ∨
+      o.subdomain ≠ c.subdomain then [mkSy "identity" host pk pk pk2 o.addr] else []) ++
   (if sortByKey (·.1) (dropTopo o.labels) ≠ sortByKey (·.1) (dropTopo c.labels) ∨ o.tls ≠ c.tls then
     [mkSy "labels" host pk pk pk2 o.addr] else [])
 
@@ -209,21 +252,21 @@ def symptomsHost (final o c : Ctl) (host : String) : List Symptom :=
     let extra := vo.eps.filter fun e => !(vc.eps.any fun x => epKey x = epKey e)
     let both := vo.eps.filterMap fun e => (vc.eps.find? fun x => epKey x = epKey e).map fun x => (e, x)
     let m := missing.map fun e =>
-      if untargeted final host e.addr then { cls := "untargeted", host := host, obj := e.addr } else
+      if untargeted final host e.addr then { cls := "untargeted", host := host, obj := e.addr, epAddr := e.addr } else
       match sourceOf final host e.addr with
       | some ep =>
         match ep.target with
-        | some (tns, tn) => { cls := "missing", host := host, obj := tns ++ "/" ++ tn : Symptom }
-        | none => { cls := "missing", host := host, obj := e.addr }
-      | none => { cls := "missing", host := host, obj := e.addr }
+        | some (tns, tn) => { cls := "missing", host := host, obj := tns ++ "/" ++ tn, epAddr := e.addr : Symptom }
+        | none => { cls := "missing", host := host, obj := e.addr, epAddr := e.addr }
+      | none => { cls := "missing", host := host, obj := e.addr, epAddr := e.addr }
     let x := extra.map fun e =>
-      if untargeted final host e.addr then { cls := "untargeted", host := host, obj := e.addr } else
+      if untargeted final host e.addr then { cls := "untargeted", host := host, obj := e.addr, epAddr := e.addr } else
       match sourceOf final host e.addr with
       | some ep =>
         match ep.target with
-        | some (tns, tn) => { cls := "extra", host := host, obj := tns ++ "/" ++ tn : Symptom }
-        | none => { cls := "extra", host := host, obj := e.addr }
-      | none => { cls := "extra-no-source", host := host, obj := e.addr }
+        | some (tns, tn) => { cls := "extra", host := host, obj := tns ++ "/" ++ tn, epAddr := e.addr : Symptom }
+        | none => { cls := "extra", host := host, obj := e.addr, epAddr := e.addr }
+      | none => { cls := "extra-no-source", host := host, obj := e.addr, epAddr := e.addr }
     let d := both.flatMap fun p => if p.1 = p.2 then [] else
       let cl := diffSymptoms host p.1 p.2
       if untargeted final host p.1.addr then
@@ -232,7 +275,7 @@ def symptomsHost (final o c : Ctl) (host : String) : List Symptom :=
           (if (cl.any (·.cls != "health")) || cl.isEmpty then
             [mkSy "untargeted" host p.1.addr (if p.1.workload ≠ "" then podKeyOf p.1 else podKeyOf p.2) (podKeyOf p.2) p.1.addr
               (if p.1.node ≠ "" then p.1.node else p.2.node)] else [])
-      else if cl.isEmpty then [{ cls := "content-other", host := host, obj := p.1.addr }] else cl
+      else if cl.isEmpty then [{ cls := "content-other", host := host, obj := p.1.addr, epAddr := p.1.addr }] else cl
     let a := if m.isEmpty ∧ x.isEmpty ∧ d.isEmpty ∧ sortStrings vo.sas.eraseDups ≠ sortStrings vc.sas.eraseDups
       then [{ cls := "accounts", host := host, obj := host : Symptom }] else []
     let sv := if vo.svc ≠ vc.svc then [{ cls := "service-differs", host := host, obj := host : Symptom }] else []
@@ -338,43 +381,69 @@ def heldArrivalCause (c : Ctl) (op : Op) (rest : List Op) : List (String × Stri
     | none => []
   | _ => []
 
+/-- a cause: clause, object, and the index of the step of the history it happens at -/
+abbrev Cause := String × String × Nat
+
+/-- index for causes that are not tied to a step of the ordered history (the order of a cold start; the
+    accounts kept by the index) -/
+def anyTime : Nat := 1000000
+
+def atStep (i : Nat) (l : List (String × String)) : List Cause := l.map fun c => (c.1, c.2, i)
+
 /-- all causes along a history; the stores-ahead schedule of a `hold` window is approximated by its
     synchronous flattening (plus `heldLabelCause`) -/
-def causesAlong : Ctl → Bool → List Op → List (String × String)
-  | _, _, [] => []
-  | c, _, .hold :: r => causesAlong c true r
-  | c, _, .release :: r => causesAlong c false r
-  | c, held, op :: r =>
+def causesAlong : Nat → Ctl → Bool → List Op → List Cause
+  | _, _, _, [] => []
+  | i, c, _, .hold :: r => causesAlong (i + 1) c true r
+  | i, c, _, .release :: r => causesAlong (i + 1) c false r
+  | i, c, held, op :: r =>
     let c' := (stepC c op).getD c
-    causesOf c op ++ (if held then heldLabelCause c op ++ heldArrivalCause c op r else []) ++ accountsKept c c' ++
-      causesAlong c' held r
+    atStep i (causesOf c op ++ (if held then heldLabelCause c op ++ heldArrivalCause c op r else [])) ++
+      atStep anyTime (accountsKept c c') ++ causesAlong (i + 1) c' held r
 
-/-- which cause explains a symptom: the clause and the object must both match -/
-def explains (final : Ctl) (sy : Symptom) (cause : String × String) : Bool :=
+/-- the step at which the slice holding the endpoint (hostname, address) of the final objects was last written:
+    a cause can only explain a symptom of that endpoint if it comes at or after it (an earlier stale entry was
+    repaired by that write).  With several holders the earliest such step; 0 without holder. -/
+def lastWriteOf (ops : List Op) (final : Ctl) (host addr : String) : Nat :=
+  let holders := final.slices.filter fun sl => sl.host = host ∧ sl.allAddrs.contains addr
+  let idx := holders.map fun sl =>
+    ((ops.zipIdx.filter fun oi => match oi.1 with
+        | .slice v => v.ns = sl.ns ∧ v.name = sl.name
+        | _ => false).map (·.2)).foldl max 0
+  match idx with
+  | [] => 0
+  | x :: r => r.foldl min x
+
+/-- which cause explains a symptom: the clause and the object must both match, and the cause must not precede
+    the last write of the slice that holds the endpoint -/
+def explains (final : Ctl) (ops : List Op) (sy : Symptom) (cause : Cause) : Bool :=
+  let cl := cause.1
+  let ob := cause.2.1
+  let late := sy.epAddr = "" || cause.2.2 ≥ lastWriteOf ops final sy.host sy.epAddr
   -- a stale or missing entry of one of the two pods involved explains any content difference of the endpoint
-  let stalePod := (cause.1 == "endpoint-of-deleted-pod-kept" || cause.1 == "identity-of-replaced-pod" ||
-      cause.1 == "waiting-address-differs-from-pod-ip") && (cause.2 == sy.pod || cause.2 == sy.pod2) ||
+  let stalePod := (cl == "endpoint-of-deleted-pod-kept" || cl == "identity-of-replaced-pod" ||
+      cl == "waiting-address-differs-from-pod-ip") && (ob == sy.pod || ob == sy.pod2) ||
     -- ... as does a duplicate of the address without targetRef
-    (cause.1 == "untargeted-endpoint-pod-lookup-stale" && sy.addr ≠ "" && cause.2 == sy.addr)
-  match sy.cls with
-  | "health" => (cause.1 == "health-built-before-service-known" && cause.2 == sy.host) || stalePod
-  | "locality" => (cause.1 == "locality-built-before-node-change" && cause.2 == sy.obj) || stalePod
-  | "labels" => (cause.1 == "labels-built-before-pod-label-change" && (cause.2 == sy.pod || cause.2 == sy.pod2)) || stalePod
+    (cl == "untargeted-endpoint-pod-lookup-stale" && sy.addr ≠ "" && ob == sy.addr)
+  late && match sy.cls with
+  | "health" => (cl == "health-built-before-service-known" && ob == sy.host) || stalePod
+  | "locality" => (cl == "locality-built-before-node-change" && ob == sy.obj) || stalePod
+  | "labels" => (cl == "labels-built-before-pod-label-change" && (ob == sy.pod || ob == sy.pod2)) || stalePod
   | "identity" => stalePod
-  | "extra" => cause.1 == "endpoint-of-deleted-pod-kept" && cause.2 == sy.obj
-  | "missing" => cause.1 == "waiting-address-differs-from-pod-ip" && cause.2 == sy.obj
-  | "accounts" => cause.1 == "accounts-kept-after-endpoints-removed" && cause.2 == sy.host
-  | "untargeted" => (cause.1 == "untargeted-endpoint-pod-lookup-stale" && cause.2 == sy.obj) || stalePod ||
-      (cause.1 == "locality-built-before-node-change" && sy.node ≠ "" && cause.2 == sy.node) ||
-      (cause.1 == "labels-built-before-pod-label-change" && (cause.2 == sy.pod || cause.2 == sy.pod2))
-  | "extra-no-source" => cause.1 == "entry-of-retyped-slice-kept" && cause.2 == sy.host
-  | _ => let _ := final; false
+  | "extra" => cl == "endpoint-of-deleted-pod-kept" && ob == sy.obj
+  | "missing" => cl == "waiting-address-differs-from-pod-ip" && ob == sy.obj
+  | "accounts" => cl == "accounts-kept-after-endpoints-removed" && ob == sy.host
+  | "untargeted" => (cl == "untargeted-endpoint-pod-lookup-stale" && ob == sy.obj) || stalePod ||
+      (cl == "locality-built-before-node-change" && sy.node ≠ "" && ob == sy.node) ||
+      (cl == "labels-built-before-pod-label-change" && (ob == sy.pod || ob == sy.pod2))
+  | "extra-no-source" => cl == "entry-of-retyped-slice-kept" && ob == sy.host
+  | _ => false
 
 /-- the verdict for a diverging case: every symptom with the cause (a step outside `GoodStep`, by
     clause name) that explains it, or `unexplained:<symptom>` -/
-def classify (final o c : Ctl) (causes : List (String × String)) : List String :=
+def classify (final o c : Ctl) (ops : List Op) (causes : List Cause) : List String :=
   let out := (symptoms final o c).map fun sy =>
-    match causes.find? (explains final sy) with
+    match causes.find? (explains final ops sy) with
     | some cause => cause.1
     | none => "unexplained:" ++ sy.cls
   sortStrings out.eraseDups
@@ -445,7 +514,8 @@ def stepClassify (cs : CState) (toks : List String) : CState × String :=
       (if before "slice" "pod" then fin.pods.filterMap fun p =>
           if untargetedAt fin p.ns p.ip then some ("untargeted-endpoint-pod-lookup-stale", p.ip) else none
         else [])
-    let cls := classify s'.c s'.c cold.c (causesAlong {} false ops ++ coldCauses ++ cs.seen ++ accountsKept cs.s.c s'.c)
+    let cls := classify s'.c s'.c cold.c ops (causesAlong 0 {} false ops ++
+      atStep anyTime (coldCauses ++ cs.seen ++ accountsKept cs.s.c s'.c))
     let g := goodTok ops
     let verdict := if showView s'.c = showView cold.c then "same" else
       "cls=" ++ (if cls.isEmpty then "unexplained" else ",".intercalate cls)
@@ -453,9 +523,10 @@ def stepClassify (cs : CState) (toks : List String) : CState × String :=
       boolTok (agreesWithDerive s'.c) ++ " cold=" ++ boolTok (coldOK coldOps) ++ " coldderive=" ++
       boolTok (agreesWith cold.c (coldFold {} coldOps).1) ++
       " nodes=" ++ boolTok (decide (NodesUnique (coldFold {} coldOps).1)) ++
-      " coldagree=" ++ boolTok (viewsAgree s'.c cold.c))
+      " coldagree=" ++ boolTok (viewsAgree s'.c cold.c) ++
+      " ordered=" ++ enc (showView s'.c) ++ " cold=" ++ enc (showView cold.c))
   | _ =>
-    let s' := (stepD cs.s toks).1
+    let s' := (stepD0 cs.s toks).1
     let ops := match toks with
       | ["hold"] => Op.hold :: cs.ops
       | ["release"] => Op.release :: cs.ops
